@@ -281,7 +281,7 @@ theorem Good.decLR (ms : List Machine) (lim st l2 s2 : Nat → Nat) (mi cur : Na
   show checkLog ms lim st lt (.limit mi 0 true :: .trans mi Gen.EV_LimitReached cur :: (c ++ rest)) = _
   rw [checkLog_limitT, ← hv, hr, checkLog_trans]
   simp only [nextLR, beq_self_eq_true, Bool.and_self, Bool.not_true, Bool.and_false, Bool.false_eq_true, if_false,
-    bne_self_eq_false, Bool.not_false, Bool.true_and]
+    bne_self_eq_false]
   rw [checkLog_lt ms _ _ _ _ lt]
   exact hc.chk lt rest hrest
 
